@@ -20,6 +20,10 @@ func init() {
 }
 
 func checkC20(p *Prog, l *Ledger) {
+	// "a line that fails … does not terminate the session": a Go panic or fatal error while a line runs ends the whole
+	// REPL process, so every rule of C07 (no reachable panic site) is a necessary condition here too — including its two
+	// known findings, which are listed for C20 as well in known_findings.json
+	l.AsOnly(map[string]string{"C07/P": "C20/S1-session-survives/P"}, func() { checkC07(p, l) })
 	// every line gets its response: a line that fails at run time must still end (rules of C06: eval is a no-op once the
 	// flag is set, no loop cycles in that state), or the session never answers another line
 	l.AsOnly(map[string]string{"C06/S2-guarded-eval": "C20/S1-line-ends-after-error/guarded-eval", "C06/S3-bounded-after-error": "C20/S1-line-ends-after-error/loops", "C06/S2-effect-after-error": "C20/S1-line-ends-after-error/effects"}, func() { checkC06(p, l) })
